@@ -103,8 +103,8 @@ def Arg.stringy : Arg → Bool
   | .html _ => true
   | _ => false
 
-/-- what the algebra says an operand contributes: escaped once iff it is not safe -/
-def once (q : Bool) : Arg → Str
+/-- what the algebra says an operand contributes: escaped once2 iff it is not safe -/
+def once2 (q : Bool) : Arg → Str
   | .str s => escapeSpec q s
   | .markup s => s
   | .msub s => s
@@ -113,32 +113,32 @@ def once (q : Bool) : Arg → Str
   | .int n => intRepr n
 
 theorem escapeCls_string (i : Impl) (q : Bool) (a : Arg) (h : a.stringy = true) :
-    ∃ t, escapeCls i (escOf i) q a = .ok (t, once q a) ∧ t ≠ .str := by
+    ∃ t, escapeCls i (escOf i) q a = .ok (t, once2 q a) ∧ t ≠ .str := by
   cases a with
   | none => simp [Arg.stringy] at h
   | int n => simp [Arg.stringy] at h
   | str s =>
     cases s with
-    | nil => exact ⟨.markup, by simp [escapeCls, Arg.falsy, once, escapeSpec], by decide⟩
+    | nil => exact ⟨.markup, by simp [escapeCls, Arg.falsy, once2, escapeSpec], by decide⟩
     | cons c cs =>
-      cases i <;> exact ⟨.markup, by simp [escapeCls, Arg.falsy, once, escOf_eq_spec], by decide⟩
+      cases i <;> exact ⟨.markup, by simp [escapeCls, Arg.falsy, once2, escOf_eq_spec], by decide⟩
   | markup s =>
     cases s with
-    | nil => exact ⟨.markup, by simp [escapeCls, Arg.falsy, once], by decide⟩
-    | cons c cs => cases i <;> exact ⟨.markup, by simp [escapeCls, Arg.falsy, once], by decide⟩
+    | nil => exact ⟨.markup, by simp [escapeCls, Arg.falsy, once2], by decide⟩
+    | cons c cs => cases i <;> exact ⟨.markup, by simp [escapeCls, Arg.falsy, once2], by decide⟩
   | msub s =>
     cases s with
-    | nil => exact ⟨.markup, by simp [escapeCls, Arg.falsy, once], by decide⟩
+    | nil => exact ⟨.markup, by simp [escapeCls, Arg.falsy, once2], by decide⟩
     | cons c cs =>
       cases i
-      · exact ⟨.msub, by simp [escapeCls, Arg.falsy, once], by decide⟩
-      · exact ⟨.markup, by simp [escapeCls, Arg.falsy, once], by decide⟩
-  | html s => cases i <;> exact ⟨.markup, by simp [escapeCls, Arg.falsy, once], by decide⟩
+      · exact ⟨.msub, by simp [escapeCls, Arg.falsy, once2], by decide⟩
+      · exact ⟨.markup, by simp [escapeCls, Arg.falsy, once2], by decide⟩
+  | html s => cases i <;> exact ⟨.markup, by simp [escapeCls, Arg.falsy, once2], by decide⟩
 
 theorem escapeOp_string (i : Impl) (q : Bool) (a : Arg) (h : a.stringy = true) :
-    escapeOp i (escOf i) q a = .ok (once q a) := by
+    escapeOp i (escOf i) q a = .ok (once2 q a) := by
   cases i
-  · cases a <;> simp [Arg.stringy] at h <;> simp [escapeOp, once, escOf_eq_spec]
+  · cases a <;> simp [Arg.stringy] at h <;> simp [escapeOp, once2, escOf_eq_spec]
   · obtain ⟨t, ht, _⟩ := escapeCls_string .py q a h
     simp [escapeOp, ht, Except.map]
 
@@ -158,6 +158,31 @@ theorem mapM_ok {α β ε : Type} (f : α → Except ε β) (g : α → β) :
     intro h
     rw [List.mapM_cons, h x (by simp), ih (fun y hy => h y (by simp [hy]))]
     rfl
+
+
+theorem mapM_escapeOp (i : Impl) (q : Bool) (os : List Arg) (h : ∀ x ∈ os, x.stringy = true) :
+    os.mapM (escapeOp i (escOf i) q) = .ok (os.map (once2 q)) :=
+  mapM_ok _ _ os (fun x hx => escapeOp_string i q x (h x hx))
+
+theorem mapM_escapeOp_pre (i : Impl) (q : Bool) (os : List Arg) :
+    (os.map fun o => Arg.markup (once2 q o)).mapM (escapeOp i (fun _ s => s) q) = .ok (os.map (once2 q)) := by
+  induction os with
+  | nil => rfl
+  | cons o os ih =>
+    rw [List.map_cons, List.mapM_cons, escapeOp_markup, ih]; rfl
+
+theorem mapM_escapeKV (i : Impl) (kvs : List (Str × Arg)) (h : ∀ p ∈ kvs, p.2.stringy = true) :
+    kvs.mapM (escapeKV i (escOf i)) = .ok (kvs.map fun p => (p.1, once2 true p.2)) :=
+  mapM_ok _ _ kvs (fun p hp => by simp [escapeKV, escapeOp_string i true p.2 (h p hp), Except.map])
+
+theorem mapM_escapeKV_pre (i : Impl) (kvs : List (Str × Arg)) :
+    (kvs.map fun p => (p.1, Arg.markup (once2 true p.2))).mapM (escapeKV i (fun _ s => s)) =
+      .ok (kvs.map fun p => (p.1, once2 true p.2)) := by
+  induction kvs with
+  | nil => rfl
+  | cons o os ih =>
+    rw [List.map_cons, List.mapM_cons, ih]
+    simp [escapeKV, escapeOp_markup, Except.map]
 
 /-! ### striptags -/
 
